@@ -89,6 +89,11 @@ class Gen:
         inner = W.os_stmt(self.gate1(t, allow_band))
         return W.w_stmt(ControlledGate(c, inner))
 
+    def ctrl_matrix(self, c, ops):
+        """an anonymous controlled gate whose target is a matrix gate"""
+        from opensquirrel.ir import ControlledGate
+        return W.w_stmt(ControlledGate(c, W.os_stmt(self.matrix_gate(ops))))
+
     def ctrl2(self, c1, c2, t):
         from opensquirrel.ir import ControlledGate
         return W.w_stmt(ControlledGate(c1, ControlledGate(c2, W.os_stmt(self.gate1(t, False)))))
@@ -157,7 +162,8 @@ class Gen:
                 if kinds == "named" or r.random() < 0.6: stmts.append(self.named2(qs[0], qs[1]))
                 else: stmts.append(self.ctrl_anon(qs[0], qs[1], allow_band))
             elif m == 7 and len(qs) >= 2 and kinds == "all":
-                if len(qs) >= 3 and r.random() < 0.4: stmts.append(self.ctrl2(qs[0], qs[1], qs[2]))
+                if len(qs) >= 3 and r.random() < 0.25: stmts.append(self.ctrl_matrix(qs[0], qs[1:3]))
+                elif len(qs) >= 3 and r.random() < 0.4: stmts.append(self.ctrl2(qs[0], qs[1], qs[2]))
                 else: stmts.append(self.matrix_gate(qs[:r.randint(2, len(qs))]))
             elif m == 8 and outcomes < max_outcomes and nb > 0:
                 stmts.append(self.measure(q, r.randrange(nb))); outcomes += 1
